@@ -69,7 +69,8 @@ def frame_facts(db):
             why = []
             if init is not None:
                 def chk(e):
-                    if e.k == 'var':
+                    if e.k == 'var' and e.name not in statics:
+                        # reading another write-once static of the same function is still a constant
                         why.append('initialiser of static %s reads variable %s' % (nm, e.name))
                     if e.k == 'call':
                         fn = e.a.name if isinstance(e.a, E) else e.a
